@@ -13,6 +13,32 @@ import (
 
 func init() {
 	register("flow", family{gen: func(r *rand.Rand, tier string) *sx.Node { return genRunnerCase(r, flowCfg, opsCfg{steps: 40, extraAfterEnd: 2}) }, run: runRunnerCase})
+	varsCfg := flowCfg
+	varsCfg.wSet, varsCfg.wDeclare, varsCfg.wLine, varsCfg.wOpts, varsCfg.wIf, varsCfg.wJump, varsCfg.wStop, varsCfg.wCmd = 9, 3, 5, 2, 2, 1, 0, 0
+	varsCfg.faultPct, varsCfg.typeFaultPct, varsCfg.maxNodes = 4, 12, 2
+	register("vars", family{gen: func(r *rand.Rand, tier string) *sx.Node {
+		return genRunnerCase(r, varsCfg, opsCfg{steps: 30, extraAfterEnd: 1, hostWrites: true, vals: true, storer: 1})
+	}, run: runRunnerCase})
+	faultCfg := flowCfg
+	faultCfg.faultPct, faultCfg.typeFaultPct, faultCfg.randomFns, faultCfg.domainFaults = 18, 10, true, true
+	register("faults", family{gen: func(r *rand.Rand, tier string) *sx.Node {
+		return genRunnerCase(r, faultCfg, opsCfg{steps: 40, extraAfterEnd: 2})
+	}, run: runRunnerCase})
+	snapCfg := flowCfg
+	snapCfg.wJump, snapCfg.wStop, snapCfg.wCmd = 4, 0, 3
+	register("snap", family{gen: func(r *rand.Rand, tier string) *sx.Node {
+		return genRunnerCase(r, snapCfg, opsCfg{steps: 24, extraAfterEnd: 2, hostWrites: true, vals: true, snapshots: true, runners: 2, storer: 1})
+	}, run: runRunnerCase})
+	cmdCfg := flowCfg
+	cmdCfg.wCmd, cmdCfg.wStop, cmdCfg.waitCmd, cmdCfg.maxNodes = 9, 1, true, 2
+	register("cmds", family{gen: func(r *rand.Rand, tier string) *sx.Node {
+		return genRunnerCase(r, cmdCfg, opsCfg{steps: 40, extraAfterEnd: 1})
+	}, run: runRunnerCase})
+	visitCfg := flowCfg
+	visitCfg.wJump, visitCfg.wStop, visitCfg.visitLines, visitCfg.maxNodes, visitCfg.wCmd = 7, 0, true, 5, 0
+	register("visits", family{gen: func(r *rand.Rand, tier string) *sx.Node {
+		return genRunnerCase(r, visitCfg, opsCfg{steps: 40, extraAfterEnd: 1, snapshots: true, runners: 1})
+	}, run: runRunnerCase})
 	endCfg := flowCfg
 	endCfg.wStop, endCfg.wJump, endCfg.maxNodes = 4, 1, 2
 	register("endcalls", family{gen: func(r *rand.Rand, tier string) *sx.Node {
@@ -59,6 +85,7 @@ func seedNode(seed string, k int) *sx.Node {
 }
 
 type opsCfg struct {
+	storer        int // 0 random, 1 host recording storer, 2 default in-memory storer
 	steps         int
 	extraAfterEnd int
 	hostWrites    bool
@@ -87,6 +114,9 @@ func genRunnerCase(r *rand.Rand, cfg genCfg, oc opsCfg) *sx.Node {
 	lseed := r.Int63()
 	lay := randomLayout(rand.New(rand.NewSource(lseed)))
 	storerMode := r.Intn(4) != 0
+	if oc.storer != 0 {
+		storerMode = oc.storer == 1
+	}
 	init := []*sx.Node{}
 	if storerMode && r.Intn(3) == 0 {
 		init = append(init, sx.List(sx.Str("n2"), numLit(40)), sx.List(sx.Str("pre"), strLit("set")))
@@ -223,6 +253,9 @@ func adaptiveOps(r *rand.Rand, c *sx.Node, oc opsCfg) []*sx.Node {
 func replayTail(r *rand.Rand, c *sx.Node, ops []*sx.Node, oc opsCfg, step int) []*sx.Node {
 	tail := []*sx.Node{}
 	nr := int(c.L[6].L[1].Int())
+	if oc.steps > step+7 {
+		oc.steps = step + 7 // every step of the tail replays the whole case
+	}
 	for ; step < oc.steps; step++ {
 		probe := *c
 		probe.L = append([]*sx.Node{}, c.L...)
